@@ -356,7 +356,10 @@ def twin_program(case, ctx):
             elif op == 'labels_setter' and not grouped and all(a_.values.dtype.kind in 'if' for a_ in x.axes):
                 x.labels = [np.arange(a_.size) * 2 + 5000 + 10 * step for a_ in x.axes]
             elif op == 'setaxis' and plain:
-                x.set_axis(list(range(3000 + 10 * step, 3000 + 10 * step + ax.size))[::-1], axis=k)
+                if k == 0:
+                    x.set_axis(list(range(3000 + 10 * step, 3000 + 10 * step + ax.size))[::-1])       # axis=0 is the default
+                else:
+                    x.set_axis(list(range(3000 + 10 * step, 3000 + 10 * step + ax.size))[::-1], axis=k)
             elif op == 'setaxis_dict' and numeric:
                 x.set_axis({ax.values[0]: 7000 + step}, axis=k)
             elif op == 'rename' and ax is not None and not isinstance(ax, MultiAxis):
